@@ -54,14 +54,14 @@ FACE = [-1.0, -0.125, 0.0, 0.125, 1.0]
 
 def plan(tier):
     if tier == "quick":
-        return dict(n_cases=400, shards=2, classes=CLASSES, timeout_s=600,
-                    min_evals={"oob_upper_survivors": 300, "oob_lower": 300, "trim_exact": 120, "dist_exact": 250,
-                               "mask_exact": 300, "oob_repr_invariance": 150, "trim_compose": 45,
-                               "dist_union_monotone": 70, "mask_complement": 90})
-    return dict(n_cases=8000, shards=16, classes=CLASSES, timeout_s=3000,
-                min_evals={"oob_upper_survivors": 6000, "oob_lower": 6000, "trim_exact": 2500, "dist_exact": 5000,
-                           "mask_exact": 6000, "oob_repr_invariance": 3000, "trim_compose": 900,
-                           "dist_union_monotone": 1400, "mask_complement": 1800})
+        return dict(n_cases=800, shards=2, classes=CLASSES, timeout_s=600,
+                    min_evals={"oob_upper_survivors": 600, "oob_lower": 600, "trim_exact": 250, "dist_exact": 300,
+                               "mask_exact": 500, "oob_repr_invariance": 300, "trim_compose": 85,
+                               "dist_union_monotone": 55, "mask_complement": 110})
+    return dict(n_cases=9600, shards=16, classes=CLASSES, timeout_s=3000,
+                min_evals={"oob_upper_survivors": 7500, "oob_lower": 7500, "trim_exact": 3000, "dist_exact": 3600,
+                           "mask_exact": 6000, "oob_repr_invariance": 3700, "trim_compose": 1000,
+                           "dist_union_monotone": 650, "mask_complement": 1300})
 
 
 # ---- judging helpers ------------------------------------------------------------------------------
@@ -501,7 +501,7 @@ def gen_trim(ctx, rng, cls, i):
     frac = rng.random() < 0.12
     if frac:
         start += rng.choice([0.0, 0.5, 0.25], 3)
-        end += rng.choice([0.0, 0.5, 0.75], 3)
+        end = np.maximum(end + rng.choice([0.0, 0.5, 0.75], 3), start)
     x = np.zeros((n, 3))
     for r in range(n):
         hs = hostile_axes(rng, (0.2, 0.5, 0.2, 0.1)) if cls == "trim_faces" else np.zeros(3, dtype=bool)
@@ -878,3 +878,16 @@ def extra(ctx):
     if ok:
         ctx.call("clean_by_tomo_mask", m.clean_by_tomo_mask, [9.0], mask)
     ctx.extra["mask_every_voxel_and_shell_particles"] = len(pts)
+
+    # (4) documented refusals (not judged; they only make the refusing lines of the anchors observed)
+    refused = 0
+    ok, m = ctx.call("Motl(df)", cm.Motl, _lattice_table(rng, [(3.0, 3.0, 3.0), (5.0, 5.0, 5.0)], 7))
+    if ok:
+        for f, a in ((m.remove_out_of_bounds_particles, (np.array([[7.0, 10, 10, 10]]), "whole")),
+                     (m.remove_out_of_bounds_particles, (np.array([[7.0, 10, 10, 10]]), "centre")),
+                     (m.clean_by_tomo_mask, ([7.0, 8.0], [np.ones((4, 4, 4))]))):
+            try:
+                f(*a)
+            except Exception:
+                refused += 1
+    ctx.extra["documented_refusals_observed (whole without box, unknown boundary type, mask count mismatch)"] = refused
